@@ -204,6 +204,9 @@ class C20(Check):
             Space("captured-constants", {"values": "equal-but-differently-typed constants, rebinding between uses of one function object"},
                   list(range(len(CAPTURE_MENU))), runner="run_capture"),
             Space("rebuilds", {"menu": len(REBUILD_MENU), "builds": 4}, (lambda: list(range(len(REBUILD_MENU)))), runner="run_rebuild"),
+            Space("deep-chains", {"lengths": [40, 150, 250], "stack": "hashed at the top level, 300 and 600 frames down, and in a thread with "
+                                  "a low recursion limit", "oracle": "every hash that IS returned for one structure is the same (a RecursionError is no hash)"},
+                  [40, 150, 250], runner="run_deep"),
             Space("processes", {"processes": 3, "PYTHONHASHSEED": "1, 2, random"}, [("proc", 0)], runner="run_proc"),
         ]
 
@@ -236,6 +239,22 @@ class C20(Check):
             res["viol"].append({"kind": "annotation-changes-hash", "canon": src, "msg": ""})
         if _hash(q) != h:
             res["viol"].append({"kind": "unstable", "canon": src, "msg": ""})
+        # (a') sharing of node objects is not structure: one object referenced twice vs two equal copies
+        try:
+            t_shared = ast.Tuple([qc, qc], ast.Load())
+            t_copies = ast.Tuple([copy.deepcopy(q), copy.deepcopy(q)], ast.Load())
+            res["n"] += 2
+            if _hash(t_shared) != _hash(t_copies):
+                res["viol"].append({"kind": "node-sharing-changes-hash", "canon": src, "msg": "(q, q) with one object twice vs two copies"})
+            inner = [n for n in ast.walk(q) if isinstance(n, ast.Call)]
+            if inner:
+                c = copy.deepcopy(inner[-1])
+                b_shared = ast.BinOp(c, ast.Mult(), c)
+                b_copies = ast.BinOp(copy.deepcopy(c), ast.Mult(), copy.deepcopy(c))
+                if _hash(b_shared) != _hash(b_copies):
+                    res["viol"].append({"kind": "node-sharing-changes-hash", "canon": src, "msg": "c * c with one call object twice vs two copies"})
+        except Exception as e:
+            res["viol"].append({"kind": f"raised:{type(e).__name__}", "canon": src + "|shared", "msg": str(e)[:100]})
         # (b) single-edit neighbours, edited in place after the tree was hashed
         seen = {h: (sk, "original")}
         for d in edits(q):
@@ -264,6 +283,55 @@ class C20(Check):
         if skey(q) != sk:
             raise RuntimeError("harness: edits not undone")
         res["oc"].append("ok" if not res["viol"] else "viol")
+        return res
+
+    def run_deep(self, n):
+        import sys
+        import threading
+
+        res = {"n": 0, "nt": [f"deep|{n}"], "oc": [], "tags": {}, "viol": []}
+        src = "ds"
+        for i in range(n):
+            src = f"{src}.Select(lambda e{i % 3}: e{i % 3}.x{i % 5} + {i})" if i % 2 else f"{src}.Where(lambda e: e.y{i % 7} > {i})"
+        old = sys.getrecursionlimit()
+        sys.setrecursionlimit(max(old, 5000))
+        try:
+            q = ast.parse(src, mode="eval").body
+        finally:
+            sys.setrecursionlimit(old)
+        got = []
+
+        def at_depth(d):
+            if d > 0:
+                return at_depth(d - 1)
+            try:
+                return ("hash", _hash(q))
+            except RecursionError:
+                return ("recursion-error",)
+
+        for d in (0, 300, 600):
+            try:
+                got.append((f"depth{d}", at_depth(d)))
+            except RecursionError:
+                got.append((f"depth{d}", ("recursion-error",)))
+            res["n"] += 1
+
+        def in_thread():
+            lim = sys.getrecursionlimit()
+            sys.setrecursionlimit(400)
+            try:
+                got.append(("thread-limit400", at_depth(0)))
+            except RecursionError:
+                got.append(("thread-limit400", ("recursion-error",)))
+            finally:
+                sys.setrecursionlimit(lim)
+        t = threading.Thread(target=in_thread)
+        t.start()
+        t.join()
+        hashes = {g[1][1] for g in got if g[1][0] == "hash"}
+        res["oc"].append(f"deep:{len(hashes)}-hashes")
+        if len(hashes) > 1:
+            res["viol"].append({"kind": "hash-depends-on-stack-depth", "canon": f"deep|{n}", "msg": str(got)[:300]})
         return res
 
     def finalize(self, agg):
@@ -480,6 +548,11 @@ def _slot_seeds():
             "Select(ds, lambda e: 1)", "Select(ds, lambda e: 1.0)", "Select(ds, lambda e: True)", "Select(ds, lambda e: '1')", "Select(ds, lambda e: b'1')",
             "Select(ds, lambda e: e.Pt)", "Select(ds, lambda e: e.pt)", "Select(ds, lambda e: e.PT)",
             "Select(ds, lambda e: e.\u00e9)", "Select(ds, lambda e: e.e\u0301)"]
+    # string CONSTANTS that are equal only after unicode normalisation / case folding / stripping are different values
+    for a, b in (("pt" + chr(0xb2), "pt2"), (chr(0xb5) + "m", chr(0x3bc) + "m"), (chr(0x212b), chr(0xc5)), (chr(0xfb01) + "t", "fit"),
+                 (chr(0xe9), "e" + chr(0x301)), (chr(0xff11), "1"), ("abc", "ABC"), ("abc", " abc"), ("abc", "abc "), ("a" + chr(9) + "b", "a b"),
+                 ("a" + chr(10) + "b", "a" + chr(92) + "nb"), ("", " ")):
+        out += [f"Select(ds, lambda e: e.f({a!r}))", f"Select(ds, lambda e: e.f({b!r}))"]
     return out
 
 
